@@ -138,9 +138,9 @@ theorem take_pager_wal (S : List Step) (hS : ∀ s ∈ S, PagerStep s) (fs : FS)
     after every prefix of its I/O steps every crash image represents `T`. -/
 theorem node_phase {cfg : Cfg} {T : List Tx} {cs : List CTx} {c k : Nat} {p0 : PImg} (b0 : Booted p0)
     (hsync : cfg.syncSlot = true) (fs : FS) (ps : PS) (id : IdSt) (xs rest : List Nat)
-    (hq : WalQuiet fs) (hcom : committed (readAll fs.wf) = .ok cs) (hlog : LogOK T cs c)
+    (hq : WalQuiet fs) (hcom : committed (readAll fs.wf) = .ok cs) (hlog : LogOK T cs c) (hstore : StoreOK T cs p0)
     (hdrop : (allNodes T).drop k = xs ++ rest)
-    (hB : AllImgs fs (NG (allNodes T) c p0 k)) (hS : Synced fs ps.pm) (hpm : OKhdr c p0 k ps.pm)
+    (hB : AllImgs fs (NG (allNodes T) c p0 k)) (hS : SyncedI fs ps.pm) (hpm : OKhdr c p0 k ps.pm)
     (hlen : ps.pm.i2eLen = k) (hidl : id.len = k) (hids : id.start = ps.pm.i2eStart)
     (hnp : 1 ≤ ps.pm.nextPage) (hck : c ≤ k) (hkN : k ≤ (allNodes T).length) :
     SafeAlong (SafeFS [T]) fs (ioSteps (nodesA cfg ps id xs).1) := by
@@ -151,8 +151,8 @@ theorem node_phase {cfg : Cfg} {T : List Tx} {cs : List CTx} {c k : Nat} {p0 : P
   obtain ⟨hw, hd, hr⟩ := take_pager_wal _ hpg fs n
   have hq' : WalQuiet (fs.steps ((ioSteps (nodesA cfg ps id xs).1).take n)) := ⟨by rw [hd, hw]; exact hq.wdur, by rw [hr]; exact hq.ren⟩
   intro mode
-  refine ⟨T, by simp, cs, c, ?_, hlog, ?_⟩
-  · rw [hq'.crashW, hw]; exact hcom
-  · exact himgs _ (crashP_isImg _ mode)
+  have hi := himgs _ (crashP_isImg _ mode)
+  refine ⟨T, by simp, cs, c, ?_, hlog, hi.1, hi.2.store hstore⟩
+  rw [hq'.crashW, hw]; exact hcom
 
 end Nervus.Crash
